@@ -78,6 +78,7 @@ def step (D : Layer) (line : String) : Layer × String :=
       | none => ((table.fields.find? (fun f => f.go = go)).map (·.dflt)).getD ""
     let file := save table c
     (nextDefaults table D [] file, s!"ok cfg={showCfg D [] file}")
+  | "loadx" => (D, "checked")   -- values not of the option's type / malformed files: not predicted
   | "savex" => (D, "checked")   -- values on which the YAML writer and reader disagree: not predicted
   | "genesis" =>
     match genesisOfOp o with
